@@ -1317,10 +1317,10 @@ def typed_cells(ctx, s):
                 continue                      # a type the tree rejects is excluded, never an alarm
             s.case(c)
             s.count('scale dtype:' + dt)
-            # scipy inverts cells of a dtype narrower than 32 bits in single precision: the reciprocal lattice of such a Grid is
-            # only accurate to ~1e-7 on the unmodified tree; these dtypes are compared at 1e-5, the others at 1e-12
-            single = dt in ('int16', 'uint8', 'uint16', 'float32')
-            tol = 1e-5 if single else 1e-12
+            # Grid converts the cell to float64 (repo fix e08c4481): every dtype is compared at 1e-12; a float32 cell has
+            # exactly representable entries here, so its float64 conversion is the same cell
+            single = False
+            tol = 1e-12
             try:
                 s.float_comparisons += 1 + 2 * dim * len(pts) + dim * dim
                 if abs(float(g.volume_scale()) - float(abs(det))) > (1e-6 if single else 1e-12) * float(abs(det)):
